@@ -381,6 +381,8 @@ class SigmaCollection:
         With collect_errors the errors of applying the filters and resolving the references of the
         merged collection are added to its errors instead of being raised.
         """
+        # The collections are walked twice below: an iterator would be used up by the first walk.
+        collections = list(collections)
         return cls(
             init_rules=[
                 rule for collection in collections for rule in collection.rules + collection.filters
